@@ -437,9 +437,134 @@ class ExpectLoop(Contract):
         return out
 
 
+# =============================================================================================
+# C02: the two searchers
+# =============================================================================================
+SS = 'pexpect.expect.searcher_string'
+
+
+def ascending(lst):
+    """Class invariant of both searchers: original list indices, non-negative and strictly ascending."""
+    n = lst.len
+    return [('idx-nonneg', forall(0, n, lambda k: lst.get(k)[0] >= 0)),
+            ('idx-ascending', forall(0, n, lambda j: forall(j + 1, n, lambda k: lst.get(j)[0] < lst.get(k)[0])))]
+
+
+def ss_off(v_buffer, freshlen, W, s):
+    return -(freshlen + length(s)) if W is None else -W
+
+
+class SearcherStringSearchInv(LoopSpec):
+    def vars(self, v):
+        k = 's' if v.l.self._kind == 's' else 'b'
+        return {'first_match': TOpt(T.Int), 'best_index': T.Int, 'best_match': TStr(k), 'n': T.Int,
+                'offset': T.Int, 'index': T.Int, 's': TStr(k)}
+
+    ghost = {'bk': T.Int}
+
+    def F(self, v, k):
+        lst = v.old.self._strings
+        s = lst.get(k)[1]
+        return find_from(v.old.buffer, s, ss_off(v.old.buffer, v.old.freshlen, v.old.searchwindowsize, s))
+
+    def invariant(self, v):
+        lst = v.old.self._strings
+        i = v.l._i0
+        fm = v.l.first_match
+        none = is_none(fm)
+        fmv = some(fm) if not (fm is None) else 0
+        bk = v.g['bk']
+        F = lambda k: self.F(v, k)
+        if fm is None:        # loop entry: nothing found yet, best_* not bound
+            return [('none-so-far', forall(0, i, lambda k: eq(F(k), -1)))]
+        return [
+            ('none-so-far', forall(0, i, lambda k: Implies(none, eq(F(k), -1)))),
+            ('witness', Implies(Not(none), And(0 <= bk, bk < i, eq(lst.get(bk)[0], v.l.best_index),
+                                               eq(lst.get(bk)[1], v.l.best_match), eq(F(bk), fmv), fmv >= 0))),
+            ('leftmost', forall(0, i, lambda k: Implies(And(Not(none), F(k) >= 0), fmv <= F(k)))),
+            ('first-listed-on-tie', forall(0, i, lambda k: Implies(And(Not(none), eq(F(k), fmv)), bk <= k))),
+        ]
+
+    def ghost_step(self, head, end):
+        fm = head.l.first_match
+        n = end.l.n
+        upd = And(n >= 0, Or(is_none(fm), n < some(fm)))
+        end.g['bk'] = ite(upd, head.l._i0, head.g['bk'])
+
+
+class SearcherStringSearch(Contract):
+    name = SS + '.search'
+    props = ('C02',)
+    loops = {0: SearcherStringSearchInv()}
+
+    def shape(self, b):
+        kind = b.choice('mode', ['b', 's'])
+        me = b.obj('self', SS, closed=True, eof_index=b.int('eof_index'), timeout_index=b.int('timeout_index'),
+                   _strings=b.symlist('_strings', [('idx', T.Int), ('s', TStr(kind))]),
+                   longest_string=b.int('longest_string'), _kind=b.const(kind),
+                   start=b.any('start0'), end=b.any('end0'), match=b.any('match0'))
+        b.ghost('bk', 0)
+        return dict(self=me, buffer=b.str('buffer', kind), freshlen=b.int('freshlen'),
+                    searchwindowsize=b.opt('W', lambda: b.int('W')))
+
+    def requires(self, v):
+        return ascending(v.a.self._strings)
+
+    def outcomes(self, v):
+        return [Ret(T.Int, 'hit'), Ret(T.Int, 'miss')]
+
+    def modifies(self, v, out):
+        if out.label == 'miss':
+            return []
+        se = v.old.self
+        k = se._kind
+        return [(se, 'start', T.Int), (se, 'end', T.Int), (se, 'match', TStr(k))]
+
+    def effects(self, v):
+        v.bk = v.draw(T.Int, 'bk')
+
+    def ensures(self, v):
+        me, new = v.old.self, v.new.self
+        lst = me._strings
+        buf = v.old.buffer
+        F = lambda k: find_from(buf, lst.get(k)[1], ss_off(buf, v.old.freshlen, v.old.searchwindowsize, lst.get(k)[1]))
+        n = lst.len
+        hit = getattr(v, 'label', None) == 'hit' or (getattr(v, 'label', None) is None and not (eq(v.result, -1) is True))
+        bk = getattr(v, 'bk', None)
+        if bk is None:
+            bk = v.g['bk']
+        miss_f = eq(v.result, -1)
+        out = [
+            # miss: no listed string occurs at or after its search start
+            ('miss.none-found', forall(0, n, lambda k: Implies(miss_f, eq(F(k), -1)))),
+            ('miss.frame', Implies(miss_f, And(same(new.start, me.start), same(new.end, me.end), same(new.match, me.match)))),
+        ]
+        if is_sym(miss_f) or not miss_f:
+            st, en, m = new.start, new.end, new.match
+            hitc = Not(miss_f)
+            if isinstance(st, Opt):
+                st = some(st)
+            ok_types = (is_sym(st) and str(st.sort()) == 'Int') or (isinstance(st, int) and not isinstance(st, bool))
+            if not ok_types:
+                out.append(('hit.sets-span', Implies(hitc, False)))
+                return out
+            out += [
+                ('hit.witness', Implies(hitc, And(0 <= bk, bk < n, eq(v.result, lst.get(bk)[0]), eq(st, F(bk)), st >= 0,
+                                                   eq(en, st + length(lst.get(bk)[1])), eq(m, lst.get(bk)[1])))),
+                # genuine: the reported span of the buffer is the listed string (via the assumed contract of find)
+                ('hit.genuine', Implies(hitc, eq(sub(buf, st, en), m))),
+                ('hit.leftmost', forall(0, n, lambda k: Implies(And(hitc, F(k) >= 0), st <= F(k)))),
+                ('hit.first-listed-on-tie', forall(0, n, lambda k: Implies(And(hitc, eq(F(k), st)), bk <= k))),
+                ('hit.refines-interface', Implies(hitc, And(v.result >= 0, 0 <= st, st <= en, en <= length(buf)))),
+            ]
+        return out
+
+
 def register(reg):
     reg.add_iface('iface:searcher', 'search', SearcherSearch)
     reg.add_iface('iface:searcher', '__str__', SearcherStr)
-    for c in (DoSearch, ExistingData, NewData, Eof, Timeout, Errored, ExpectLoop):
+    for c in (DoSearch, ExistingData, NewData, Eof, Timeout, Errored, ExpectLoop, SearcherStringSearch):
         reg.add(c)
     reg.inline_ok.update({'pexpect.spawnbase.SpawnBase._get_buffer'})
+
+
